@@ -139,8 +139,10 @@ func NewFieldBuildContext(m MessageBuildContext, field *FieldDescriptorProtoExt,
 
 // NewMapValueFieldBuildContext creates FieldBuildContext for MapValueField
 func NewMapValueFieldBuildContext(c *FieldBuildContext, field *FieldDescriptorProtoExt, index int, typ string) (*FieldBuildContext, error) {
-	// We've gen.GoType always returns *type here, have to override
-	i := strings.LastIndex(typ, "]")
+	// We've gen.GoType always returns *type here, have to override.
+	// The value type starts after the bracket closing the key type (the value type may
+	// itself contain brackets: map[string][]byte).
+	i := strings.Index(typ, "]")
 	t := typ[i+1:]
 
 	return &FieldBuildContext{
